@@ -163,6 +163,48 @@ func runC02(p *core.Prog, r *core.Report) {
 					"must-held lockset at the Write contains the handler's mutex", fmt.Sprintf("Write on the destination without holding %s (held: %v)", h.Mu.Name(), heldKeys))
 			})
 		}
+		// the lock is released on every path (a leaked lock silences every logger of the family)
+		for fn := range reachableFrom(p, handle) {
+			locks, unlocks, deferred := map[ssa.Instruction]bool{}, map[ssa.Instruction]bool{}, false
+			sx.Instrs(fn, func(in ssa.Instruction) {
+				c, ok := in.(ssa.CallInstruction)
+				if !ok {
+					return
+				}
+				n := sx.CalleeName(c)
+				args := sx.Args(c)
+				if len(args) == 0 || !hasSuffixField(sx.MutexKey(args[0]), h.Mu.Name()) {
+					return
+				}
+				switch n {
+				case "(*sync.Mutex).Lock":
+					locks[in] = true
+				case "(*sync.Mutex).Unlock":
+					if _, isD := c.(*ssa.Defer); isD {
+						deferred = true
+						// the defer must follow the Lock on every path: checked below as "registered before any return"
+						unlocks[in] = true
+					} else {
+						unlocks[in] = true
+					}
+				}
+			})
+			if len(locks) == 0 {
+				continue
+			}
+			okRel := len(unlocks) > 0
+			why := "the mutex is locked but never unlocked"
+			for l := range locks {
+				for _, ret := range sx.Returns(fn) {
+					if sx.ReachInstr(fn, l, ret, sx.Cut{Instrs: unlocks}) {
+						okRel = false
+						why = "a return at " + p.Pos(ret.Pos()) + " is reachable after Lock without Unlock (e.g. the write-error path): the shared mutex stays locked and every later record of every derived logger blocks forever"
+					}
+				}
+			}
+			_ = deferred
+			r.Check(okRel, "C02-R2", fmt.Sprintf("%s: %s released on every path of %s", h.Name, h.Mu.Name(), fnName(fn)), p.FuncPos(fn), "every return after Lock passes an Unlock (or its defer)", why)
+		}
 		if _, isPtr := h.Mu.Type().(*types.Pointer); !isPtr {
 			r.Fail("C02-R2", h.Name+"."+h.Mu.Name()+" is shared by pointer", "-", "the mutex field is a value: every clone would get its own copy")
 		} else {
@@ -226,6 +268,62 @@ func runC02(p *core.Prog, r *core.Report) {
 
 		// ---- R4: private buffer in Handle
 		checkPrivateBuffers(p, r, h, handle)
+	}
+
+	// ---- R3 (converse): an exported Logger method loses a record only through Enabled(level) == false
+	if lg := p.Named("logger", "Logger"); lg != nil {
+		reachesHandle := func(fn *ssa.Function) bool {
+			hit := false
+			for f := range reachableFrom(p, fn) {
+				sx.Instrs(f, func(in ssa.Instruction) {
+					if c, ok := in.(ssa.CallInstruction); ok && c.Common().IsInvoke() && c.Common().Method.Name() == "Handle" {
+						hit = true
+					}
+				})
+			}
+			return hit
+		}
+		ms := p.SSA.MethodSets.MethodSet(types.NewPointer(lg))
+		for i := 0; i < ms.Len(); i++ {
+			m := p.SSA.MethodValue(ms.At(i))
+			if m == nil || m.Blocks == nil || m.Synthetic != "" || !reachesHandle(m) {
+				continue
+			}
+			if len(m.AnonFuncs) > 0 {
+				continue // Relay: records are written from deferred closures; covered by C15
+			}
+			cut := sx.Cut{Instrs: map[ssa.Instruction]bool{}, Edges: map[sx.Edge]bool{}}
+			sx.Instrs(m, func(in ssa.Instruction) {
+				c, ok := in.(ssa.CallInstruction)
+				if !ok {
+					return
+				}
+				if c.Common().IsInvoke() {
+					switch c.Common().Method.Name() {
+					case "Handle":
+						cut.Instrs[in] = true
+					case "Enabled":
+						if call, ok := in.(*ssa.Call); ok {
+							for _, e := range enabledEdges(call) {
+								cut.Edges[sx.Edge{From: e.From, Idx: 1 - e.Idx}] = true // the disabled edge
+							}
+						}
+					}
+					return
+				}
+				if callee := sx.StaticCallee(c); callee != nil && p.InModule(callee) && reachesHandle(callee) {
+					cut.Instrs[in] = true
+				}
+			})
+			ok := true
+			for _, ret := range sx.Returns(m) {
+				if sx.ReachInstr(m, nil, ret, cut) {
+					ok = false
+				}
+			}
+			// panics/exits after logging are fine; a method with no return at all (Fatal) must still reach the log call
+			r.Check(ok, "C02-R3", "Logger."+ms.At(i).Obj().Name()+" drops a record only when its level is disabled", p.FuncPos(m), "every return lies behind the log call or behind Enabled(level) == false", "Logger."+ms.At(i).Obj().Name()+" can return without logging for a reason other than Enabled(level) == false (e.g. a shortcut on IsDebug()): a record at an enabled level causes no Write")
+		}
 	}
 
 	// ---- R3: level gate at every Handler.Handle call outside handlers
